@@ -1,9 +1,10 @@
 (* C15 — Static loading never executes analysed code; interpreter state is restored.
    Property theorems only: each closed by [exact] of a lemma from Proofs/, followed by Print Assumptions.
-   agent_ladder, not_found_reraises, the handler tables and the sys_path protocol flags are the definitions of
-   Gen/C15_ladder.v, regenerated from loader.py / importer.py on every run. *)
+   agent_ladder, not_found_reraises, the handler tables, the statement order of _inspect_module, the sys_path protocol
+   flags, the finder's fallback on sys.path and the option forwarding of the public entry points are the definitions of
+   Gen/C15_ladder.v, regenerated from loader.py / importer.py / finder.py / cli.py on every run. *)
 From Coq Require Import List ZArith String Bool Arith.
-From Verif Require Import Lib.Sexp Model.C15_base Gen.C15_ladder Model.C15_loader Proofs.C15_loader.
+From Verif Require Import Lib.Sexp Model.C15_base Gen.C15_ladder Model.C15_loader Proofs.C15_loader Proofs.C15_restore Proofs.C15_failures.
 Import ListNotations.
 Open Scope list_scope. Open Scope nat_scope.
 
@@ -14,44 +15,63 @@ Theorem C15_no_inspect_when_disallowed :
 Proof. exact ladder_never_inspects_when_disallowed. Qed.
 Print Assumptions C15_no_inspect_when_disallowed.
 
+(* Every public way into the loader -- griffe.load, griffe.load_git, `griffe dump`, the three loads of `griffe check` --
+   hands allow_inspection and force_inspection down to GriffeLoader exactly as it received them. *)
+Theorem C15_entry_points_forward_options :
+  forall ep allow force, entry_allow ep allow = allow /\ entry_force ep force = force.
+Proof. exact entry_points_forward_inspection_options. Qed.
+Print Assumptions C15_entry_points_forward_options.
+
 (* A whole session with inspection disallowed -- the root load (found package, namespace package, not found: the
-   ModuleNotFoundError fallback, missing path), ANY sequence of loads nested in it (the wildcard expansion _load_package
-   runs before merging stubs) and ANY sequence of re-entrant loads after it (alias resolution / wildcard expansion),
-   in any world (any files, any import-time behaviour) -- runs no module body,
-   never reaches the inspector, adds nothing to sys.modules and leaves sys.path (binding, list objects) as it was. *)
+   ModuleNotFoundError fallback, missing path) with ANY tree of loads nested in it (the wildcard expansion _load_package
+   runs before merging stubs, re-entering load for packages that may themselves have stubs, to any depth) and ANY
+   sequence of such trees after it (alias resolution / wildcard expansion), in any world (any files, any import-time
+   behaviour) -- runs no module body, never reaches the inspector, adds nothing to sys.modules and leaves sys.path
+   (binding, list objects) as it was. *)
 Theorem C15_static_session_executes_nothing :
-  forall w submodules search nested root reqs s r s',
-    session w false false submodules search nested root reqs s = (r, s') ->
+  forall w store submodules search root later s r s',
+    session w false false store submodules search root later s = (r, s') ->
     executions s' = executions s /\ inspections s' = inspections s /\ mods s' = mods s /\
     cur s' = cur s /\ next s' = next s /\ heap s' = heap s.
 Proof. exact static_session_executes_nothing. Qed.
 Print Assumptions C15_static_session_executes_nothing.
 
-(* ... and a static load ends in success, LoadingError, ModuleNotFoundError, or with what the finder itself raised
-   (FileNotFoundError for a missing Path, UnicodeDecodeError for a top-level __init__.py that is not UTF-8). *)
+(* ... and so does a call of any public entry point with inspection disallowed, whatever loaders it builds
+   (`griffe dump a b c`: one load per package on one loader; `griffe check`: the old and the new tree). *)
+Theorem C15_static_entry_executes_nothing :
+  forall store phases s r s',
+    run_phases false false store phases s = (r, s') ->
+    executions s' = executions s /\ inspections s' = inspections s /\ mods s' = mods s /\
+    cur s' = cur s /\ next s' = next s /\ heap s' = heap s.
+Proof. exact static_entry_executes_nothing. Qed.
+Print Assumptions C15_static_entry_executes_nothing.
+
+(* A static load ends in success, LoadingError, ModuleNotFoundError, or with what the finder itself raised for one of
+   the packages asked for, at any nesting depth (FileNotFoundError for a missing Path, UnicodeDecodeError for a
+   top-level __init__.py that is not UTF-8). *)
 Theorem C15_static_root_result :
-  forall w submodules search root s,
-    let r := fst (load_one w false false submodules search root s) in
+  forall w store submodules search t s,
+    let r := fst (load_tree w false false store submodules search t s) in
     r = None \/ r = Some XLoadingError \/ r = Some XModuleNotFound \/
-    exists e, r = Some (ferr_exn e) /\ find_pkg (w_find w) root = FFinderError e.
+    exists x, r = Some x /\ exists q e, In q (tree_reqs t) /\ x = ferr_exn e /\ find_pkg (w_find w) q = FFinderError e.
 Proof. exact static_root_result. Qed.
 Print Assumptions C15_static_root_result.
 
 (* Compiled modules (any suffix that is not a source suffix) are skipped, not imported: as a submodule the error is
    logged and loading continues with the next one in an unchanged interpreter; as the top module the load is refused. *)
 Theorem C15_compiled_skipped :
-  forall w search nsroot f subs loaded s,
+  forall w store search nsroot f subs loaded s,
     source_suffix (m_suffix f) = false ->
     (nsroot = true \/ mem_name (removelast (m_name f)) loaded = true) ->
-    load_subs w false false search nsroot (f :: subs) loaded s =
-    load_subs w false false search nsroot subs loaded (log_ev (EvSkip (m_name f) (m_suffix f)) s).
+    load_subs w false false store search nsroot (f :: subs) loaded s =
+    load_subs w false false store search nsroot subs loaded (log_ev (EvSkip (m_name f) (m_suffix f)) s).
 Proof. exact compiled_submodule_skipped. Qed.
 Print Assumptions C15_compiled_skipped.
 
 Theorem C15_compiled_top_rejected :
-  forall np w submodules search top subs stubs s,
+  forall np w store submodules search top subs stubs s,
     source_suffix (m_suffix top) = false ->
-    load_package_with np w false false submodules search top subs stubs s = (Some XLoadingError, s).
+    load_package_with np w false false store submodules search top subs stubs s = (Some XLoadingError, s).
 Proof. exact compiled_top_rejected. Qed.
 Print Assumptions C15_compiled_top_rejected.
 
@@ -63,39 +83,71 @@ Proof. exact no_reentry_when_external_false. Qed.
 Print Assumptions C15_no_reentry_when_external_false.
 
 (* Whatever the flags, the world (every placement of raising / exiting / missing-dependency imports, every in-place
-   mutation or rebinding of sys.path by imported code) and the re-entries: after the session sys.path is bound to the same
-   list object and that object has the same contents. *)
+   mutation or rebinding of sys.path by imported code, at the root, in a submodule, or inside a load nested to any depth)
+   and the re-entries: after the session sys.path is bound to the same list object and that object has the same contents. *)
 Theorem C15_sys_path_restored :
-  forall w allow force submodules search nested root reqs s r s',
+  forall w allow force store submodules search root later s r s',
     wf s -> search <> [] ->
-    session w allow force submodules search nested root reqs s = (r, s') ->
+    session w allow force store submodules search root later s = (r, s') ->
     cur s' = cur s /\ heap s' (cur s) = heap s (cur s).
 Proof. exact sys_path_restored. Qed.
 Print Assumptions C15_sys_path_restored.
 
 (* for a package found on disk no assumption on the search paths is needed *)
 Theorem C15_sys_path_restored_found_package :
-  forall w allow force submodules search top subs stubs s r s',
-    wf s -> load_package_with no_nested w allow force submodules search top subs stubs s = (r, s') ->
+  forall w allow force store submodules search top subs stubs s r s',
+    wf s -> load_package_with no_nested w allow force store submodules search top subs stubs s = (r, s') ->
     cur s' = cur s /\ heap s' (cur s) = heap s (cur s).
 Proof. exact sys_path_restored_found_package. Qed.
 Print Assumptions C15_sys_path_restored_found_package.
 
-(* Import-time failures (exception, SystemExit, KeyboardInterrupt, missing dependency at any import attempt; failing
-   attribute access in dynamic_import; SystemExit while walking the imported module) leave load as ImportError,
-   ModuleNotFoundError or LoadingError; anything else is what the finder raised before any loading started. *)
+(* The finder's search paths are empty only when no search path is configured AND sys.path itself is empty. *)
+Theorem C15_finder_paths_nonempty :
+  forall given syspath, given <> [] \/ syspath <> [] -> finder_paths given syspath <> [].
+Proof. exact finder_paths_nonempty. Qed.
+Print Assumptions C15_finder_paths_nonempty.
+
+(* Through the public entry points: every loader takes its search paths from the finder, so as long as sys.path is not
+   empty when the entry point is called (or every loader is given search paths), sys.path is restored -- also with
+   search_paths=None, when the temporary list equals sys.path, and across several loads. *)
+Theorem C15_entry_sys_path_restored :
+  forall allow force store phases s r s',
+    wf s -> heap s (cur s) <> [] \/ Forall (fun ph => ph_given ph <> [] \/ ph_front ph <> []) phases ->
+    run_phases allow force store phases s = (r, s') ->
+    cur s' = cur s /\ heap s' (cur s) = heap s (cur s).
+Proof. exact entry_sys_path_restored. Qed.
+Print Assumptions C15_entry_sys_path_restored.
+
+(* The exact classification of what can leave a session, with no assumption on the world: ImportError /
+   ModuleNotFoundError / LoadingError; or what the finder raised for a requested package before any loading started; or
+   what walking an imported module raised, as the handlers of _inspect_module / _load_module leave it. Import-time
+   failures proper (exception, SystemExit, KeyboardInterrupt, a BaseException subclass, missing dependency at any
+   import attempt; failing attribute access in dynamic_import) are always in the first class. *)
+Theorem C15_failures_classified :
+  forall w allow force store submodules search root later s x,
+    fst (session w allow force store submodules search root later s) = Some x ->
+    import_family x = true \/ finder_escape w (session_reqs root later) x \/ walk_escape w x.
+Proof. exact failures_classified. Qed.
+Print Assumptions C15_failures_classified.
+
+(* When what the walk raises is SystemExit or an ImportError (the faults the handlers convert), every failure is
+   ImportError / ModuleNotFoundError / LoadingError or the finder's own error. *)
 Theorem C15_failures_become_importerror :
-  forall w allow force submodules search nested root s x,
-    walk_exit_only w ->
-    fst (load_root w allow force submodules search nested root s) = Some x ->
-    import_family x = true \/
-    exists q e, In q (root :: nested) /\ x = ferr_exn e /\ find_pkg (w_find w) q = FFinderError e.
+  forall w allow force store submodules search root later s x,
+    walk_convertible w ->
+    fst (session w allow force store submodules search root later s) = Some x ->
+    import_family x = true \/ finder_escape w (session_reqs root later) x.
 Proof. exact failures_become_importerror. Qed.
 Print Assumptions C15_failures_become_importerror.
 
-(* With no assumption on the world at all: SystemExit never leaves a session. *)
+(* With no assumption on the world at all: SystemExit never leaves a session, nor a public entry point. *)
 Theorem C15_system_exit_never_escapes :
-  forall w allow force submodules search nested root reqs s,
-    fst (session w allow force submodules search nested root reqs s) <> Some XSystemExit.
+  forall w allow force store submodules search root later s,
+    fst (session w allow force store submodules search root later s) <> Some XSystemExit.
 Proof. exact system_exit_never_escapes. Qed.
 Print Assumptions C15_system_exit_never_escapes.
+
+Theorem C15_system_exit_never_escapes_entry :
+  forall allow force store phases s, fst (run_phases allow force store phases s) <> Some XSystemExit.
+Proof. exact system_exit_never_escapes_entry. Qed.
+Print Assumptions C15_system_exit_never_escapes_entry.
